@@ -50,6 +50,10 @@ func Par(g *G, nprog int) []Program {
 			g.Emit(M{"op": "Quo", "z": "r1", "x": regs[2], "y": "r1"})
 			g.Emit(M{"op": "SetPrec", "z": "r1", "p": 130})
 		}
+		squares := p%8 == 3 // every goroutine squares the same operand of 51..99 words (Karatsuba squaring with a tail: pooled temporaries)
+		if squares {
+			g.Load("r0", g.Bool(), g.Digits(g.Pick(1000, 1300, 1800)), modExp(), 0, g.Mode())
+		}
 		observers := p%8 == 7 // goroutines that only read: formatting with an explicit precision, conversions, comparisons
 		if observers {
 			// r0: an integer whose digits fill its mantissa words exactly (the conversions need no shift and may be tempted
@@ -64,6 +68,13 @@ func Par(g *G, nprog int) []Program {
 			z := regs[2+i]
 			var steps []any
 			ns := 3 + g.R.Intn(4)
+			if squares {
+				for j := 0; j < ns; j++ {
+					steps = append(steps, M{"op": "Mul", "z": z, "x": "r0", "y": "r0"})
+				}
+				gs = append(gs, steps)
+				continue
+			}
 			if observers {
 				for j := 0; j < ns+3; j++ {
 					switch g.R.Intn(9) {
